@@ -13,6 +13,8 @@ type Alphabet struct {
 	NestSame bool
 	// NoStack forbids a unary operator directly on a unary operator.
 	NoStack bool
+	// Recover: label sets for recovery operators (binary nodes).
+	Recover [][]string
 }
 
 // Enumerator memoises the expressions of each exact size.
@@ -58,6 +60,18 @@ func (en *Enumerator) Size(n int) []*Expr {
 		}
 		for ar := 2; ar <= en.A.MaxArity; ar++ {
 			en.compose(k, n-1, ar, nil, &out)
+		}
+	}
+	for _, labels := range en.A.Recover {
+		for s1 := 1; s1 <= n-2; s1++ {
+			for _, e1 := range en.Size(s1) {
+				for _, e2 := range en.Size(n - 1 - s1) {
+					if e2.K == KRecover {
+						continue // the recovery expression slot is a choice expression
+					}
+					out = append(out, &Expr{K: KRecover, Kids: []*Expr{e1, e2}, FailLabels: labels})
+				}
+			}
 		}
 	}
 	en.memo[n] = out
